@@ -10,6 +10,7 @@ EventTags(ev) ==
          [] ev.e = "decode_seq"     -> VDecodeSeq(ev)
          [] ev.e = "decode_opts"    -> VDecodeOpts(ev)
          [] ev.e = "decode_bits"    -> VDecodeBits(ev)
+         [] ev.e = "fault_sweep"    -> VFaultSweep(ev)
          [] ev.e = "decode_suffix"  -> VDecodeSuffix(ev)
          [] ev.e = "avps_concat"    -> VAvpsConcat(ev)
          [] ev.e = "ctl_records"    -> VCtlRecords(ev)
